@@ -200,3 +200,16 @@ TEXT["C18"] = {
              "assignments, all config routes x all names; each response equals the model's field by field; plus a containment TEST (labelled as a test) for the concrete password values."),
     "note": ("Trusted: Lean kernel + 3 standard axioms; viper modelled as a flattened key-path map (validated differentially); log output and process environment not modelled. The tie is sampled."),
 }
+
+TEXT["C19"] = {
+    "design_ref": "DESIGN.md §4.19",
+    "technique": "Lean 4: the configuration phase as ordered validation chains, proved equivalent to the declarative catalogue of requirements, + recover-handler/Start theorems; panic-site list REGENERATED from the source and pinned; + differential correspondence of the real configuration phase and the real Start on generated valid/invalid configurations",
+    "text": ("Proof: Props/C19.lean proves configure_passes_iff_valid — the model of newCoordinators + every Configure (50 validation sites in execution order) passes iff the declarative catalogue "
+             "`Valid` holds (server lists, referenced clusters/profiles, class names, one storage/evaluator module, legacy keys, patterns, templates, URLs/addresses, TLS files) — and from it "
+             "invalid_refused (Start returns 1, nothing started), valid_accepted, never_crashes, refusal_names_a_violation, for every configuration; original_handler_crashed documents the defect "
+             "that was repaired (the recover handler re-panicked: every invalid configuration crashed Start); catalogue_is_the_sources pins the 70 panic sites regenerated from the Configure "
+             "methods by go/ast, so an added, removed or reworded validation breaks an obligation. Tie: ~1000 generated configurations per quick run through the real configuration phase and the "
+             "real Start; accepted/refused, which validation fired and Start's result compared with the model."),
+    "note": ("Trusted: Lean kernel + 3 standard axioms; oracle bits for library decisions (regexp, templates, validators, Kafka version, file reads, key pairs) computed with Burrow's own calls; the "
+             "harness's TOML rendering; module Start methods not modelled. The tie is sampled."),
+}
